@@ -228,3 +228,40 @@ func (g *Gen) metaOverrideProgram() *GProgram {
 	}
 	return g.prog
 }
+
+// worldBalance: the balance of @world (never requested) read through balance() / overdraft(), after
+// another origin has made the store answer; the ledger holds a non-zero balance for @world.
+func (g *Gen) worldBalanceProgram() *GProgram {
+	asset := "USD"
+	g.asset = asset
+	g.smallBalances([]string{"a", "b"}, asset, 30)
+	w := int64(g.r.Intn(60)) - 20
+	g.bal["world"] = map[string]*big.Int{asset: bi(w)}
+	decl := func(name, fn, account string) {
+		g.prog.Vars = append(g.prog.Vars, &GVarDecl{Type: "monetary", Name: name,
+			Origin: &GFnCall{Name: fn, Args: []*GExpr{acct(account), {Kind: XAsset, S: asset}}}})
+	}
+	if g.r.Chance(3, 4) {
+		decl("first", "balance", g.r.Pick([]string{"a", "b"}))
+	}
+	fn := "balance"
+	if g.r.Chance(1, 3) {
+		fn = "overdraft"
+	}
+	decl("w", fn, "world")
+	use := &GExpr{Kind: XVar, S: "w"}
+	switch g.r.Intn(3) {
+	case 0:
+		g.prog.Stmts = append(g.prog.Stmts, &GStmt{Kind: StSend, Sent: &GSent{E: use}, Src: srcAcct("world"), Dst: dstAcct("c")})
+	case 1:
+		g.prog.Stmts = append(g.prog.Stmts, &GStmt{Kind: StCall, Call: &GFnCall{Name: "set_tx_meta", Args: []*GExpr{{Kind: XString, S: "k"}, use}}})
+	default:
+		g.prog.Stmts = append(g.prog.Stmts, &GStmt{Kind: StSend, Sent: &GSent{E: use},
+			Src: &GSource{Kind: SrcInorder, Subs: []*GSource{srcAcct("a"), srcAcct("world")}}, Dst: dstAcct("c")})
+	}
+	if g.r.Chance(1, 2) {
+		g.prog.Stmts = append(g.prog.Stmts, &GStmt{Kind: StSave, Sent: &GSent{E: lit(asset, bi(int64(g.r.Intn(10))))}, Acct: acct("world")})
+		g.prog.Stmts = append(g.prog.Stmts, &GStmt{Kind: StSend, Sent: &GSent{E: lit(asset, bi(int64(g.r.Intn(10))))}, Src: srcAcct("world"), Dst: dstAcct("d")})
+	}
+	return g.prog
+}
